@@ -15,6 +15,10 @@ CLAIMED = {
          "For both Cowable impls every kind arm of owned_from_parts/clone_from_parts/drop_from_parts is decided to perform exactly the acquire/release effects the encoding requires, on normal and unwind paths; Vec/Arc raw-parts APIs are trusted."),
  "C13": ("forwarding + kind-consistency + sibling-isomorphism over MIR for every layer's Recorder impl; switch-edge gates for the filter; mask/arm tables and provenance for the router; loop-shape (whole-vector iteration, exit only on exhaustion) for the fanout",
          "Every Recorder method of Stack/Prefix/Filter/Router/Fanout and every Fanout*Fn method is decided on all paths; radix_trie::get_ancestor and aho_corasick::is_match semantics are trusted."),
+ "C03": ("sibling agreement of canonical forms read from the typed HIR match arms of hash / == / cmp; who-may-construct rule over every Key aggregate (hash belongs to the stored name/labels); Release/Acquire + dominance table for the hash memo; forwarding of Cow's relations through deref",
+         "Agreement of the three relations is decided per label-count class {0,1,2,3..7,8+} (exhaustive over the finite class set); the memoisation protocol premises are decided on every path of get_hash/clone. That sort+lexicographic comparison is a total order is the standard argument, not re-proved."),
+ "C06": ("provenance of hash/shard/key through every keyed operation, entry-API-only insertion under the write guard (must-pass-through on guard drops), lock-result handling uniformity, kind-triplet isomorphism and kind-consistency over MIR; key contract imported from C03",
+         "Every keyed operation of Registry is decided on all paths; RwLock and hashbrown's raw-entry API are trusted. Linearizability under contention is argued from these premises, not explored."),
 }
 checks = []
 for p in props:
